@@ -26,19 +26,24 @@ for d in sorted((ROOT / "seeded").glob("*/meta.json")):
 out += ["", f"{c} of {n} seeded changes are reported by the quick check of their property (all {n} pass the repository's baseline tests and fail their author's demonstration)."]
 bres = json.loads((ROOT / "selftest" / "benign_results.json").read_text()) if (ROOT / "selftest" / "benign_results.json").exists() else []
 out += ["", "### 12.3 Behaviour-preserving refactorings (`selftest/benign/`, run by `selftest/run_benign.py`)", "",
-        "Eighteen refactorings written by independent sub-agents (three per area: core lookups; construction / mutation / "
-        "derivation; bulk operations and I/O; reconciliation and discovery; web services; validators, triples and reference "
-        "classes), each restructuring the implementation substantially - public methods no longer calling each other, "
-        "private helpers renamed, merged or removed, bulk operations no longer going through the public scalar methods, "
-        "regular expressions replaced by scanners, recursive algorithms made iterative - while preserving all public "
-        "behaviour (verified by their authors with differential runs against the original). All twenty quick checks are run "
+        "Behaviour-preserving changes written by independent sub-agents. First batch (area1..area6, three each): the "
+        "implementation is restructured substantially - public methods no longer calling each other, private helpers renamed, "
+        "merged or removed, bulk operations no longer going through the public scalar methods, regular expressions replaced "
+        "by scanners, recursive algorithms made iterative - while all public behaviour is preserved (verified by their "
+        "authors with differential runs against the original). Second batch (unspecified1..4): observable details that the "
+        "twenty properties do not promise are deliberately changed - order of records and synonym lists, exception "
+        "messages and more specific ValueError subclasses, number of duplicate summaries, file layout, tie-breaking among "
+        "equally short URI prefixes, the delimiter of derived converters, HTTP response bodies, removal of the GitHub "
+        "special case of discover. All twenty quick checks are run "
         "against each; any exit code other than 0 is an alarm.", "",
         "| refactoring | repository tests | checks raising an alarm |", "|---|---|---|"]
 for r in bres:
     out.append(f"| {r['refactoring']} | {'114/114' if r.get('baseline_tests_not_passing') == [] else r.get('baseline_tests_not_passing')} | {', '.join(r.get('alarms') or []) or 'none'} |")
 out += ["", f"{sum(1 for r in bres if r.get('alarms') == [])} of {len(bres)} refactorings leave all twenty checks silent. "
         "(As first run, two of them - area1-R1 and area1-R2, where public methods stop calling each other - made C03 and C02 "
-        "exit INCONCLUSIVE because an anchored public function was no longer entered; see section 11.5.)"]
+        "exit INCONCLUSIVE because an anchored public function was no longer entered; see section 11.5. A sixteenth change of "
+        "the second batch, csv writers with lineterminator \"\\n\", made C15 and C16 report a violation - correctly: it is kept "
+        "as seeded/C15-E.)"]
 text = (ROOT / "DESIGN.md").read_text()
 block = "<!-- CATCH-MATRIX:BEGIN -->\n" + "\n".join(out) + "\n<!-- CATCH-MATRIX:END -->"
 if "<!-- CATCH-MATRIX:BEGIN -->" in text:
